@@ -22,6 +22,8 @@
 (*   ms        peer -> Health as every survivor's monitor reports it:      *)
 (*             v0..v2 numeric, nonnum = valid but not a number, bad =      *)
 (*             absent / invalid flag / expired (the monitor filters those) *)
+(*   getfail   CIDs whose State.Get fails (a read error, not "not found")  *)
+(*             while the alert / PeerRemove / StateSync is handled         *)
 (*   rank      cid -> peers ordered by XOR distance, closest first (an     *)
 (*             arbitrary strict total order; only totality is used)        *)
 (***************************************************************************)
@@ -30,7 +32,7 @@ EXTENDS ClusterAPI
 Members(w)        == Range(w.peers)
 IsFollower(w, p)  == p \in Range(w.followers)
 EnvAt(w, p) == [follower |-> IsFollower(w, p), dmin |-> 0 - 1, dmax |-> 0 - 1, strat |-> w.strat, ms |-> w.ms,
-                paths |-> <<>>, blocks |-> w.blocks, fail |-> <<>>, logfail |-> <<>>, deferred |-> FALSE]
+                paths |-> <<>>, blocks |-> w.blocks, fail |-> <<>>, logfail |-> <<>>, deferred |-> FALSE, getfail |-> w.getfail]
 
 Pos(s, x) == CHOOSE i \in DOMAIN s : s[i] = x
 \* distances(exclude) + isClosest: p against the trusted members other than itself and `exclude`
@@ -171,17 +173,31 @@ RehomeCidOK(w, ep, acts, psF, e) ==
         rehomed == /\ SameOptions(n, e)                                         \* RehomeGood: options preserved
                    /\ f \notin Range(n.allocs) /\ \A q \in Range(n.allocs) : HealthyP(w, q)
                    /\ n.allocs # <<>> /\ Len(n.allocs) >= e.rmin                 \* never committed empty / below min
+                   /\ (Cardinality(Remaining(w, e, f)) <= e.rmax => Remaining(w, e, f) \subseteq Range(n.allocs))  \* no live holder dropped
                    /\ Good(AllocIn(w, e, f), [ok |-> TRUE, allocs |-> n.allocs])  \*             allocation per C03
                    /\ Cardinality(Actors(acts, "pin", e.cid)) = 1               \* ExactlyOne
     IN
     /\ Has(psF, e.cid)
-    /\ IF RepinEnabled(w, ep) /\ BelowMin(w, e, f) /\ CanRehome(w, e, f)
+    /\ IF e.cid \in Range(w.getfail) THEN Norm(n) = Norm(e)      \* its read failed: it stays exactly as it was (drops none)
+       ELSE IF RepinEnabled(w, ep) /\ BelowMin(w, e, f) /\ CanRehome(w, e, f)
        THEN IF e.exp = "past" THEN rehomed \/ Norm(n) = Norm(e)   \* an expired pin awaits its unpin: either is fine
             ELSE rehomed
        ELSE Norm(n) = Norm(e)                                                   \* Untouched
 
 RehomeEpisodeOK(w, ep, ps0, acts, psF) ==
     RehomeFrameOK(ps0, acts, psF) /\ \A e \in ps0 : RehomeCidOK(w, ep, acts, psF, e)
+
+\* Two removals in a row (ep.failed, then ep.failed2, both called at ep.at).  After the first one the removed peer
+\* is no member any more: the monitor (pubsubmon filters the metrics by the consensus peerset at every call) reports
+\* nothing for it, so for the second removal it is as good as a peer without a metric -- in particular nothing may be
+\* re-homed onto it.
+WAfter(w, t) == [w EXCEPT !.peers = SelectSeq(w.peers, LAMBDA q : q # t),
+                          !.ms = [q \in DOMAIN w.ms |-> IF q = t THEN "bad" ELSE w.ms[q]]]
+Step1(ep) == [kind |-> "remove", failed |-> ep.failed, at |-> ep.at]
+Step2(ep) == [kind |-> "remove", failed |-> ep.failed2, at |-> ep.at]
+Remove2EpisodeOK(w, ep, ps0, acts1, ps1, acts2, psF) ==
+    /\ RehomeEpisodeOK(w, Step1(ep), ps0, acts1, ps1)
+    /\ RehomeEpisodeOK(WAfter(w, ep.failed), Step2(ep), ps1, acts2, psF)
 
 Sharded(w, ps, m)  == IF Has(ps, m.ref) /\ HasBlock(EnvAt(w, ""), m.ref) THEN {m.cid, m.ref} \cup Range(Links(EnvAt(w, ""), m.ref))
                       ELSE {}
@@ -193,7 +209,8 @@ ExpiryFrameOK(ps0, acts, psF) ==
     /\ \A i \in DOMAIN acts : acts[i].kind # "pin"
     /\ Cids(psF) \subseteq Cids(ps0)
 ExpiryCidOK(w, ps0, acts, psF, e) ==
-    IF e.cid \in ExpiryDue(w, ps0)
+    IF e.cid \in Range(w.getfail) THEN Has(psF, e.cid) /\ Norm(Ent(psF, e.cid)) = Norm(e)
+    ELSE IF e.cid \in ExpiryDue(w, ps0)
     THEN ~Has(psF, e.cid) /\ Cardinality(Actors(acts, "unpin", e.cid)) = 1      \* ExpiryOnce: exactly one peer
     ELSE /\ Has(psF, e.cid) /\ Norm(Ent(psF, e.cid)) = Norm(e)
          /\ (e.exp # "past" => Actors(acts, "unpin", e.cid) = {})               \* an unexpired pin by none
